@@ -28,14 +28,31 @@ def install():
     from crosshair.libimpl import structlib
     from crosshair.enforce import EnforcedConditions
 
+    import re as _re
+    _ITEM = _re.compile(r"(\d*)([a-zA-Z?])")
+    _expanded = {}
+
+    def _expand(fmt):
+        """'3f' -> 'fff': CrossHair 0.0.110's struct model returns ONE value for a repeat count on non-string codes
+        (found via C13: '<16sIBBIBB3f3f3fI16s' came back with 3 floats missing); repeat counts on s/p are kept."""
+        out = _expanded.get(fmt)
+        if out is None:
+            prefix = fmt[0] if fmt[:1] in "@=<>!" else ""
+            body = fmt[len(prefix):]
+            out = prefix + "".join((m.group(1) + m.group(2)) if m.group(2) in "sp" else m.group(2) * int(m.group(1) or 1)
+                                   for m in _ITEM.finditer(body))
+            _expanded[fmt] = out
+        return out
+
     def _s_pack(self, *args):
-        return structlib._pack(self.format, *args)
+        return structlib._pack(_expand(self.format), *args)
 
     def _s_unpack(self, buffer):
-        return structlib._unpack(self.format, buffer)
+        return structlib._unpack(_expand(self.format), buffer)
 
     def _s_unpack_from(self, buffer, offset=0):
-        return structlib._unpack_from(self.format, buffer, offset)
+        fmt = _expand(self.format)
+        return structlib._unpack(fmt, buffer[offset:offset + self.size])
 
     register_patch(struct.Struct.pack, _s_pack)
     register_patch(struct.Struct.unpack, _s_unpack)
